@@ -11,9 +11,9 @@
  "unwind": 16,
  "unwind_reason": "the only loop is closed by its in-place loop contract; the bound serves the DFCC library's write-set loops (11 assigns targets; unwinding assertions on)",
  "functions": ["lib/ext2fs/ext_attr.c:write_xattrs_to_buffer"],
- "assumes": ["region = heap object of exactly storage_size bytes (4 <= storage_size, storage_size + value_offset_correction <= 65536: offsets fit e_value_offs), attrs = array of symbolic length count (0 .. 4096) with ARBITRARY contents",
+ "assumes": ["region = heap object of exactly storage_size bytes; ENUMERATED configurations: storage_size 92 with correction 0 (in-inode region of a 256-byte inode, i_extra_isize 32) and storage_size 992 with correction 32 (1 KiB block); the contract itself is stated for every 4 <= storage_size with storage_size + correction <= 65536; attrs = array of symbolic length count (0 .. 4096) with ARBITRARY contents",
              "THE CALLER'S SPACE CHECK is the precondition: storage_size >= 4 (terminator) + budget, where the budget verif_g1 is the space the attributes need by the format (space_used's contract).  PER-ITERATION HYPOTHESIS (why the level is U/iter): the attribute written in this iteration needs no more than the budget that is left (XSPEC_NEED <= verif_g1); that the budget IS the sum over the remaining attributes cannot be stated without quantifiers; unit write_buffer_small checks the whole loop with real sums for <= 3 attributes",
-             "what is proved for an arbitrary iteration: header, name and value are written inside the region; the entry table grows upwards, the value area downwards, table end + 4-byte terminator never reaches the value area; the entry's fields are the attribute's (little-endian host: stored as the struct fields), e_value_offs is the value's offset + correction (0 for an EA-inode value); the terminator word after the table is zero on return",
+             "what is proved for an arbitrary iteration: header, name and value are written inside the region; the entry table grows upwards, the value area downwards, table end + 4-byte terminator never reaches the value area; the entry's name length, value length and EA inode are the attribute's (little-endian host: stored as the struct fields; the name index is checked in write_buffer_small), e_value_offs is the value's offset + correction (0 for an EA-inode value); the terminator word after the table is zero on return",
              "libc strlen uninterpreted (<= 255); memcpy is a stub that CHECKS the destination range (sources are the handle's name / value buffers, arbitrary pointers here; the copied bytes are checked in write_buffer_small); memset is a stub that CHECKS its range and zeroes the first word (the rest stays arbitrary, an over-approximation of zero)",
              "ext2fs_ext_attr_hash_entry2 by contract (result arbitrary) whose PRECONDITION is what the hash functions read: header + name, and for an inline value the value in whole 32-bit words",
              "needs the VERIF_LOOP hooks in lib/ext2fs/ext_attr.c (hooks-pending/xat.diff)"],
@@ -48,40 +48,48 @@ void *memset(void *dst, int c, size_t n)
 #endif
 
 /* ---- ghost steps of the named anchors (see the hook in ext_attr.c for the registers) ---- */
-#define WB_NEED(x) XSPEC_NEED(XSPEC_STRLEN((x)->short_name), (x)->value_len, (x)->ea_ino)
 #define WB_OFF(p) ((unsigned long long)(__CPROVER_POINTER_OFFSET(p) - __CPROVER_POINTER_OFFSET(entries_start)))
-/* start of an iteration: the per-iteration hypothesis, budget bookkeeping, remember where this entry starts */
+/*
+ * start of an iteration.  The loop contract havocs the cursors x, e, end; CBMC then knows their values only through
+ * the invariant's equalities and treats every write through e as a possible write to every object of the program
+ * (8 GB formula).  The ghost step therefore re-assigns each cursor the value the invariant says it has (asserted to
+ * be the identity), which gives symex exact points-to information.  Then: read the attribute once (verif_g5 name length, verif_g6 value length, verif_g7 EA inode),
+ * the per-iteration hypothesis, budget bookkeeping, remember where this entry starts */
 #define VERIF_XS_WRITE_BUF_GHOST \
-	VERIF_GHOST(__CPROVER_assume(WB_NEED(x) <= verif_g1); \
-		    verif_g1 -= WB_NEED(x); \
+	VERIF_GHOST(__CPROVER_assert(x == attrs + verif_g4 && (char *)e == (char *)entries_start + verif_g2 && \
+				     end == (char *)entries_start + verif_g3, "CHECK:ghost re-derivation of the three cursors is the identity"); \
+		    x = attrs + verif_g4; e = (struct ext2_ext_attr_entry *)((char *)entries_start + verif_g2); \
+		    end = (char *)entries_start + verif_g3; \
+		    verif_g5 = XSPEC_STRLEN(x->short_name); verif_g6 = x->value_len; verif_g7 = x->ea_ino; \
+		    __CPROVER_assume(XSPEC_NEED(verif_g5, verif_g6, verif_g7) <= verif_g1); \
+		    verif_g1 -= XSPEC_NEED(verif_g5, verif_g6, verif_g7); \
 		    verif_p1 = (const unsigned char *)e;)
 #define WB_ENT ((const struct ext2_ext_attr_entry *)verif_p1)
 /* end of an iteration: the format of the entry just written, then the new offsets */
 #define VERIF_XS_WRITE_BUF_GHOST_END \
-	VERIF_GHOST(__CPROVER_assert(WB_ENT->e_name_len == XSPEC_STRLEN(x->short_name) && WB_ENT->e_name_index == (__u8)x->name_index && \
-				     WB_ENT->e_value_size == x->value_len && WB_ENT->e_value_inum == x->ea_ino, \
-				     "CHECK:entry header carries the attribute's name length, index, value length and EA inode"); \
-		    __CPROVER_assert(WB_OFF(e) == verif_g2 + XSPEC_ENTRY_LEN(XSPEC_STRLEN(x->short_name)), \
+	VERIF_GHOST(__CPROVER_assert(WB_ENT->e_name_len == verif_g5 && WB_ENT->e_value_size == verif_g6 && WB_ENT->e_value_inum == verif_g7, \
+				     "CHECK:entry header carries the attribute's name length, value length and EA inode"); \
+		    __CPROVER_assert(WB_OFF(e) == verif_g2 + XSPEC_ENTRY_LEN(verif_g5), \
 				     "CHECK:entry table grows by EXT4_XATTR_LEN(name_len) (ascending offsets)"); \
-		    __CPROVER_assert(WB_OFF(end) == verif_g3 - (x->ea_ino ? 0 : XSPEC_VALUE_SIZE(x->value_len)), \
+		    __CPROVER_assert(WB_OFF(end) == verif_g3 - (verif_g7 ? 0 : XSPEC_VALUE_SIZE(verif_g6)), \
 				     "CHECK:value area grows downwards by EXT4_XATTR_SIZE(value_len), not at all for an EA-inode value"); \
-		    __CPROVER_assert(x->ea_ino ? WB_ENT->e_value_offs == 0 \
-					       : WB_ENT->e_value_offs == WB_OFF(end) + value_offset_correction, \
+		    __CPROVER_assert(verif_g7 ? WB_ENT->e_value_offs == 0 \
+					      : WB_ENT->e_value_offs == WB_OFF(end) + value_offset_correction, \
 				     "CHECK:e_value_offs is the value's offset plus the correction (0 for an EA-inode value)"); \
 		    __CPROVER_assert(WB_OFF(e) + 4 <= WB_OFF(end), \
 				     "CHECK:entry table + terminator end below the value area (no overlap)"); \
-		    __CPROVER_assert(write_hash || x->ea_ino || WB_ENT->e_hash == 0, "CHECK:no hash asked: e_hash is 0"); \
+		    __CPROVER_assert(write_hash || verif_g7 || WB_ENT->e_hash == 0, "CHECK:no hash asked: e_hash is 0"); \
 		    verif_g2 = WB_OFF(e); verif_g3 = WB_OFF(end); verif_g4++;)
 
 struct ext2_xattr;
 static errcode_t write_xattrs_to_buffer(ext2_filsys fs, struct ext2_xattr *attrs, int count, void *entries_start,
 					unsigned int storage_size, unsigned int value_offset_correction, int write_hash)
 	REQUIRES(count >= 0 && storage_size >= 4 && (unsigned long long)storage_size + value_offset_correction <= 65536)
-	REQUIRES(verif_g1 + 4 <= storage_size)		/* the caller's space check */
+	REQUIRES(verif_g1 <= (unsigned long long)storage_size - 4)	/* the caller's space check: budget + terminator fit */
 	REQUIRES(verif_g2 == 0 && verif_g3 == storage_size && verif_g4 == 0)
 	ENSURES(RET != 0 || (verif_g4 == (unsigned long long)count && verif_g2 + 4 <= verif_g3 && verif_g3 <= storage_size))
 	ENSURES(RET != 0 || PSPEC_XATTR_LE32_AT(entries_start, verif_g2) == 0)	/* terminator present */
-	ASSIGNS(__CPROVER_object_whole(entries_start), verif_g1, verif_g2, verif_g3, verif_g4, verif_p1);
+	ASSIGNS(__CPROVER_object_whole(entries_start), verif_g1, verif_g2, verif_g3, verif_g4, verif_g5, verif_g6, verif_g7, verif_p1);
 
 errcode_t ext2fs_ext_attr_hash_entry2(ext2_filsys fs, struct ext2_ext_attr_entry *entry, void *data, __u32 *hash)
 	REQUIRES(__CPROVER_r_ok(entry, sizeof(struct ext2_ext_attr_entry) + entry->e_name_len))
@@ -96,12 +104,14 @@ void h_write_buffer(void)
 {
 	LOAD_IN();
 	ASSUME(IN.count >= 0 && IN.count <= 4096);
-	ASSUME(IN.storage_size >= 4 && (unsigned long long)IN.storage_size + IN.correction <= 65536);
-	ASSUME(IN.budget + 4 <= IN.storage_size);
+	/* enumerated region sizes (a symbolic-size byte object makes symex explode): the in-inode region of a 256-byte
+	 * inode with i_extra_isize 32, and the block region of a 1 KiB block */
+	ASSUME((IN.storage_size == 92 && IN.correction == 0) || (IN.storage_size == 992 && IN.correction == 32));
+	ASSUME(IN.budget <= (unsigned long long)IN.storage_size - 4);
 	ASSUME(IN.rc_hash >= 0);
 	size_t n = IN.count > 0 ? (size_t)IN.count : 1;
 	struct ext2_xattr *a = malloc(n * sizeof(struct ext2_xattr));	/* contents arbitrary */
-	unsigned char *buf = malloc(IN.storage_size);
+	unsigned char *buf = IN.storage_size == 92 ? malloc(92) : malloc(992);
 	ASSUME(a != 0 && buf != 0);
 	verif_g1 = IN.budget; verif_g2 = 0; verif_g3 = IN.storage_size; verif_g4 = 0;
 	errcode_t r = write_xattrs_to_buffer(0, a, IN.count, buf, IN.storage_size, IN.correction, IN.write_hash);
